@@ -276,6 +276,12 @@ def run_shard(ctx, spec):
         gen.add_comments(prog, prng, density=0.6)
         style = rng.choice(["plain", "dense", "random", "crlf"])
         texts = printer.print_program(prog, [printer.Layout(random.Random(rng.random()), style) for _ in prog.files])
+        moduleless_at = None
+        if rng.random() < 0.2 and len(texts) < 4:
+            # a file that holds no module once preprocessed is compiled but not transmitted - and must not cost the files after it
+            moduleless_at = rng.randrange(len(texts) + 1)
+            texts.insert(moduleless_at, rng.choice(["", "// nothing\n", "#if LEGACY\nmodule Legacy\nstruct Old {}\n#endif\n"]))
+            ctx.stats["programs_with_module_less_file"] += 1
         k = len(texts)
         # every split into sources / references with at least one source (sampled when there are many)
         splits = [s for s in itertools.product([True, False], repeat=k) if any(s)]
@@ -372,8 +378,11 @@ def run_shard(ctx, spec):
                 want_src = [f for f in with_module if f["is_source"]]
                 want_ref = [f for f in with_module if not f["is_source"]]
                 # source/reference split and order, as the command line says (sources in order given, then references)
-                if [f["path"] for f in want_src] != [names[i] for i in order if split[i]]:
-                    raise Mismatch("harness-library-order", "library file order %r" % [f["path"] for f in want_src])
+                has_module = [i != moduleless_at for i in range(len(texts))]
+                if [f["path"] for f in want_src] != [names[i] for i in order if split[i] and has_module[i]]:
+                    raise Mismatch("harness-library-order", "library file order %r, expected %r; has_module %r order %r split %r names %r texts %r"
+                                   % ([f["path"] for f in want_src], [names[i] for i in order if split[i] and has_module[i]], has_module, order, split, names,
+                                      [t[:40] for t in texts]))
                 if [f["path"] for f in req["sourceFiles"]] != [f["path"] for f in want_src] or \
                         [f["path"] for f in req["referenceFiles"]] != [f["path"] for f in want_ref]:
                     raise Mismatch("source-reference-split", "request has sources %r / references %r, compiled were %r / %r"
